@@ -8,11 +8,27 @@ package pipe
 // up to a preemption bound are enumerated. Oracle: a sequential reference model replayed in
 // the recorded linearisation order (order of completion = order of the final critical section
 // because every operation holds the pipe mutex for its whole effect).
+//
+// Second family ("seq"): explicit-state BFS (vk.BFS) over ALL single-threaded operation histories
+// of the real Pipe over the alphabet Write{sizes} / Read{sizes} / CloseWithError{EOF,err} /
+// BreakWithError / BreakWithErrorAndLen{two errors} / Release / pool reuse / Err / Len, merged
+// on the concrete state, to closure. Every history runs as one controlled thread, so a Read that
+// blocks is observed as a deadlock outcome and compared with the model ("a read blocks until
+// data or closure") instead of hanging. Pool reuse: sync.Pool drops Puts at random under -race,
+// so the buffer the pipe gave back is handed to a second pipe directly (what the pool may do at
+// any time); whatever happens to the first pipe afterwards, the second must deliver its own
+// bytes in order, exactly once.
+//
+// BreakWithErrorAndLen (the break entry point of both closeStream implementations) is judged by
+// the exactly-once clause: it reports exactly the accepted bytes that no Read got and none will
+// get (a break is immediate), so a break of an already broken or released pipe reports 0, and
+// (bytes read) + (bytes reported unread) never exceeds the accepted bytes.
 
 import (
 	"errors"
 	"fmt"
 	"io"
+	"strings"
 	"testing"
 
 	"github.com/bfenetworks/bfe/verifkit/vk"
@@ -24,7 +40,7 @@ const c21cap = 4
 
 type c21op struct {
 	thr  string
-	kind string // W R C B L(release) E(rr)
+	kind string // W R C B K(break-and-len) L(release) E(rr) N(Len)
 	arg  []byte // write data
 	size int    // read buffer size
 	n    int
@@ -36,9 +52,12 @@ type c21op struct {
 var (
 	c21E1 = errors.New("E-break")
 	c21E2 = errors.New("E-close")
+	c21E3 = errors.New("E-breaklen")
+	c21E4 = errors.New("E-breaklen2")
 )
 
 type c21model struct {
+	cap      int // 0 = c21cap
 	buf      []byte
 	err      error
 	breakErr error
@@ -56,6 +75,9 @@ func (m *c21model) step(o c21op) string {
 			return ""
 		}
 		free := c21cap - len(m.buf)
+		if m.cap > 0 {
+			free = m.cap - len(m.buf)
+		}
 		want := len(o.arg)
 		if want > free {
 			want = free
@@ -100,6 +122,25 @@ func (m *c21model) step(o c21op) string {
 		if m.breakErr == nil || m.breakErr == io.EOF {
 			m.breakErr = o.e
 		}
+	case "K":
+		// unread = accepted bytes no Read got; a break is immediate, so after the first break
+		// nothing is unread-but-deliverable any more, and a released pipe holds nothing.
+		want := 0
+		if m.breakErr == nil {
+			want = len(m.buf)
+		}
+		if o.n != want {
+			return fmt.Sprintf("break-and-len unread count %d, want %d (buffered=%q err=%v break=%v released=%v)", o.n, want, m.buf, m.err, m.breakErr, m.released)
+		}
+		if m.breakErr == nil {
+			m.breakErr = o.e
+		}
+	case "N":
+		// Len = unread portion. After a break the statement is silent on whether the discarded
+		// bytes still count: both answers are accepted.
+		if o.n != len(m.buf) && !(m.breakErr != nil && o.n == 0) {
+			return fmt.Sprintf("Len() returned %d, want %d (break=%v released=%v)", o.n, len(m.buf), m.breakErr, m.released)
+		}
 	case "L":
 		m.buf = nil
 		m.released = true
@@ -109,7 +150,7 @@ func (m *c21model) step(o c21op) string {
 			want = m.breakErr
 		}
 		if o.err != want {
-			return fmt.Sprintf("Err() returned %v, want %v", o.err, want)
+			return fmt.Sprintf("Err() mismatch: returned %v, want %v", o.err, want)
 		}
 	}
 	return ""
@@ -118,7 +159,7 @@ func (m *c21model) step(o c21op) string {
 type c21scn struct {
 	ws     []int  // write sizes
 	rbuf   int    // read buffer size
-	closer string // "", "B", "C", "CL", "E", "BL"
+	closer string // script over B C K(BreakWithErrorAndLen) L E N(Len), e.g. "", "B", "CL", "KL"
 	hs     bool   // handshake: the writer waits until the reader received the first byte before going on
 }
 
@@ -171,6 +212,12 @@ func c21run(scn c21scn, ch *vk.Chooser) (out vsched.Outcome, log []c21op) {
 					case 'B':
 						p.BreakWithError(c21E1)
 						c21log(&log, c21op{thr: "X", kind: "B", e: c21E1})
+					case 'K':
+						n := p.BreakWithErrorAndLen(c21E3)
+						c21log(&log, c21op{thr: "X", kind: "K", e: c21E3, n: n})
+					case 'N':
+						n := p.Len()
+						c21log(&log, c21op{thr: "X", kind: "N", n: n})
 					case 'C':
 						p.CloseWithError(c21E2)
 						c21log(&log, c21op{thr: "X", kind: "C", e: c21E2})
@@ -217,21 +264,31 @@ func c21check(r *vk.Run, scn c21scn, id string, out vsched.Outcome, log []c21op)
 	if out.Races > 0 {
 		r.Violation("race", id, fmt.Sprintf("%d data race report(s) in this interleaving (see build log)", out.Races))
 	}
-	// exactly once, in order: concatenation of reads is a prefix of accepted bytes
+	c21account(r, id, log)
+}
+
+// c21account: exactly once, in order. The concatenation of all reads is a prefix of the accepted
+// bytes, and bytes read plus bytes reported unread by breaks never exceed the accepted bytes.
+func c21account(r *vk.Run, id string, log []c21op) {
 	var acc, got []byte
+	unread := 0
 	for _, o := range log {
-		if o.kind == "W" {
+		switch o.kind {
+		case "W":
 			acc = append(acc, o.arg[:o.n]...)
-		}
-		if o.kind == "R" {
+		case "R":
 			got = append(got, o.data...)
+		case "K":
+			unread += o.n
 		}
 	}
 	if len(got) > len(acc) || string(acc[:len(got)]) != string(got) {
-		r.Violation("order", id, fmt.Sprintf("read stream %q is not a prefix of accepted stream %q", got, acc))
+		r.Violation("order", id, fmt.Sprintf("read stream %q is not a prefix of accepted stream %q; log=%s", got, acc, c21logstr(log)))
+		return
 	}
-	last := log[len(log)-1]
-	_ = last
+	if len(got)+unread > len(acc) {
+		r.Violation("account:read+unread>accepted", id, fmt.Sprintf("%d bytes read + %d reported unread by breaks > %d accepted; log=%s", len(got), unread, len(acc), c21logstr(log)))
+	}
 }
 
 func c21class(why string) string {
@@ -260,6 +317,12 @@ func c21logstr(log []c21op) string {
 			s += fmt.Sprintf("W(%d)=%d,%v ", len(o.arg), o.n, o.err)
 		case "R":
 			s += fmt.Sprintf("R(%d)=%q,%v ", o.size, o.data, o.err)
+		case "K":
+			s += fmt.Sprintf("K(%v)=%d ", o.e, o.n)
+		case "N":
+			s += fmt.Sprintf("Len=%d ", o.n)
+		case "E":
+			s += fmt.Sprintf("Err=%v ", o.err)
 		default:
 			s += fmt.Sprintf("%s(%v) ", o.kind, o.e)
 		}
@@ -281,6 +344,289 @@ func c21scenarios(sizes, rbufs []int, closers []string) []c21scn {
 	return scns
 }
 
+// ---------------------------------------------------------------------------------------------
+// Family "seq": every single-threaded operation history, explicit-state BFS to closure.
+
+type c21sop struct {
+	name string
+	kind string // W R C B K L P(pool reuse) E N
+	size int
+	e    error
+}
+
+func c21seqOps() []c21sop {
+	ops := []c21sop{
+		{"W1", "W", 1, nil}, {"W3", "W", 3, nil}, {"W5", "W", 5, nil},
+		{"R1", "R", 1, nil}, {"R4", "R", 4, nil},
+		{"Cf", "C", 0, io.EOF}, {"Ce", "C", 0, c21E2},
+		{"B", "B", 0, c21E1}, {"K", "K", 0, c21E3}, {"K2", "K", 0, c21E4},
+		{"L", "L", 0, nil}, {"P", "P", 0, nil}, {"E", "E", 0, nil}, {"N", "N", 0, nil},
+	}
+	{
+		ops = append(ops, c21sop{"W0", "W", 0, nil}, c21sop{"W2", "W", 2, nil}, c21sop{"W4", "W", 4, nil},
+			c21sop{"R0", "R", 0, nil}, c21sop{"R2", "R", 2, nil}, c21sop{"R5", "R", 5, nil})
+	}
+	return ops
+}
+
+const c21ring = "abcdefgh" // written bytes cycle with a period longer than the capacity
+
+type c21seq struct {
+	r    *vk.Run
+	ops  []c21sop
+	cap  int
+	base []int // fixed first operations (shard root)
+	out  map[string]int64
+	runs int64
+}
+
+func (x *c21seq) id(hist []int) string {
+	names := make([]string, len(hist))
+	for i, h := range hist {
+		names[i] = x.ops[h].name
+	}
+	return fmt.Sprintf("seq cap=%d hist=%s", x.cap, strings.Join(names, ","))
+}
+
+func c21errName(e error) string {
+	if e == nil {
+		return "-"
+	}
+	return e.Error()
+}
+
+// run executes base+hist on a fresh pipe inside one controlled thread and judges it.
+func (x *c21seq) run(rel []int) (key string, ok bool) {
+	hist := append(append([]int{}, x.base...), rel...)
+	// enabledness (a pure function of the history): Release once; pool reuse once, after Release.
+	released, reused := false, false
+	for _, h := range hist {
+		switch x.ops[h].kind {
+		case "L":
+			if released {
+				return "", false
+			}
+			released = true
+		case "P":
+			if !released || reused {
+				return "", false
+			}
+			reused = true
+		}
+	}
+	id := x.id(hist)
+	if !x.r.Case(id) {
+		return "", false
+	}
+	x.runs++
+	p := NewPipeWithSize(uint32(x.cap))
+	fb := p.b.(*FixedBuffer)
+	pool := &vsync.Pool{New: func() interface{} { return NewFixedBuffer(make([]byte, x.cap)) }}
+	var pb *Pipe
+	var log []c21op
+	var bLen, bN int
+	var bData []byte
+	var bErr error
+	bDone := false
+	off := 0
+	var out vsched.Outcome
+	vk.Explore(nil, nil, 0, func(ch *vk.Chooser) {
+		out = vsched.Run(ch, 400, func() {
+			for _, h := range hist {
+				op := x.ops[h]
+				switch op.kind {
+				case "W":
+					d := make([]byte, op.size)
+					for i := range d {
+						d[i] = c21ring[(off+i)%len(c21ring)]
+					}
+					n, err := p.Write(d)
+					off += n
+					c21log(&log, c21op{thr: "S", kind: "W", arg: d, n: n, err: err})
+				case "R":
+					buf := make([]byte, op.size)
+					n, err := p.Read(buf)
+					c21log(&log, c21op{thr: "S", kind: "R", size: op.size, n: n, data: append([]byte(nil), buf[:n]...), err: err})
+				case "C":
+					p.CloseWithError(op.e)
+					c21log(&log, c21op{thr: "S", kind: "C", e: op.e})
+				case "B":
+					p.BreakWithError(op.e)
+					c21log(&log, c21op{thr: "S", kind: "B", e: op.e})
+				case "K":
+					n := p.BreakWithErrorAndLen(op.e)
+					c21log(&log, c21op{thr: "S", kind: "K", e: op.e, n: n})
+				case "L":
+					p.Release(pool)
+					c21log(&log, c21op{thr: "S", kind: "L"})
+				case "P":
+					// the pool hands the released buffer to the next stream's pipe
+					pb = &Pipe{b: fb}
+					n, err := pb.Write([]byte("XY"))
+					c21log(&log, c21op{thr: "S", kind: "P", n: n, err: err})
+				case "E":
+					e := p.Err()
+					c21log(&log, c21op{thr: "S", kind: "E", err: e})
+				case "N":
+					n := p.Len()
+					c21log(&log, c21op{thr: "S", kind: "N", n: n})
+				}
+			}
+			if pb != nil {
+				bLen = pb.Len()
+				buf := make([]byte, x.cap+2)
+				bN, bErr = pb.Read(buf)
+				bData = buf[:bN]
+				bDone = true
+			}
+		})
+	}, nil)
+	if out.Panic != "" {
+		x.r.Violation("panic:"+vk.PanicSite(out.Panic), id, "panic: "+out.Panic)
+		return "", false
+	}
+	if out.Horizon {
+		x.r.Violation("horizon", id, "single-threaded history exceeded the step horizon")
+		return "", false
+	}
+	m := &c21model{cap: x.cap}
+	for i, o := range log {
+		if o.kind == "P" {
+			if o.n != 2 || o.err != nil {
+				x.r.Violation("pool-reuse:write", id, fmt.Sprintf("write of 2 bytes into a fresh pipe on the recycled (reset) buffer returned (%d,%v); log=%s", o.n, o.err, c21logstr(log)))
+				return "", false
+			}
+			continue
+		}
+		if why := m.step(o); why != "" {
+			x.r.Violation("model:"+o.kind+":"+c21class(why), id, fmt.Sprintf("op %d (%s): %s; log=%s", i, x.ops[hist[i]].name, why, c21logstr(log)))
+			return "", false
+		}
+	}
+	if out.Races > 0 {
+		x.r.Violation("race", id, "race report in a single-threaded history (see build log)")
+	}
+	if out.Deadlock {
+		// the operation that did not return is hist[len(log)] (or the final check of the second pipe)
+		if len(log) < len(hist) && x.ops[hist[len(log)]].kind == "R" && m.breakErr == nil && len(m.buf) == 0 && m.err == nil {
+			x.out["read-blocks"]++
+			c21account(x.r, id, log)
+			return "", false // correct, and terminal: nobody is left to wake the reader
+		}
+		what := "second-pipe-check"
+		if len(log) < len(hist) {
+			what = x.ops[hist[len(log)]].kind
+		}
+		x.r.Violation("blocked:"+what, id, fmt.Sprintf("operation %s blocked forever although the model says it returns: buffered=%q err=%v break=%v; log=%s", what, m.buf, m.err, m.breakErr, c21logstr(log)))
+		return "", false
+	}
+	c21account(x.r, id, log)
+	if pb != nil {
+		if !bDone || bLen != 2 || bN != 2 || string(bData) != "XY" || bErr != nil {
+			x.r.Violation("pool-reuse:other-pipe-disturbed", id, fmt.Sprintf("second pipe on the recycled buffer: Len=%d Read=(%q,%v), want Len=2 Read=(\"XY\",nil); log=%s", bLen, bData, bErr, c21logstr(log)))
+			return "", false
+		}
+	}
+	if len(log) > 0 {
+		last := log[len(log)-1]
+		cls := last.kind
+		switch {
+		case last.kind == "R" && last.err != nil:
+			cls = "R:" + c21errName(last.err)
+		case last.kind == "R":
+			cls = "R:data"
+		case last.kind == "W" && last.err != nil:
+			cls = "W:refused"
+		case last.kind == "K" && last.n > 0:
+			cls = "K:unread>0"
+		case last.kind == "E":
+			cls = "E:" + c21errName(last.err)
+		}
+		x.out[cls]++
+	}
+	// canonical concrete state of the real objects (+ what the next write will carry)
+	live := "released"
+	if p.b != nil {
+		live = fmt.Sprintf("r%d,w%d,%q", fb.r, fb.w, fb.buf[fb.r:fb.w])
+	}
+	key = fmt.Sprintf("%s|err=%s|brk=%s|fn=%v|off=%d|reused=%v|fb=%d,%d|m=%q,%s,%s,%v", live, c21errName(p.err), c21errName(p.breakErr),
+		p.readFn != nil, off%len(c21ring), reused, fb.r, fb.w, m.buf, c21errName(m.err), c21errName(m.breakErr), m.released)
+	return key, true
+}
+
+func c21parseHist(ops []c21sop, s string) ([]int, bool) {
+	var hist []int
+	if s == "" {
+		return hist, true
+	}
+	for _, nm := range strings.Split(s, ",") {
+		found := false
+		for i, o := range ops {
+			if o.name == nm {
+				hist = append(hist, i)
+				found = true
+			}
+		}
+		if !found {
+			return nil, false
+		}
+	}
+	return hist, true
+}
+
+// c21seqFamily: one BFS per (capacity, first operation) = shard root; every root reaches the same closure,
+// states/transitions are summed over roots.
+func c21seqFamily(r *vk.Run, idx *int) {
+	ops := c21seqOps()
+	maxDepth := 40
+	caps := []int{2, 4}
+	if r.Thorough() {
+		caps = []int{2, 3, 4, 5, 7}
+	}
+	if r.Replaying() {
+		var c int
+		var hs string
+		if n, _ := fmt.Sscanf(r.ReplayCase(), "seq cap=%d hist=%s", &c, &hs); n >= 1 && c > 0 {
+			if hist, ok := c21parseHist(ops, hs); ok {
+				x := &c21seq{r: r, ops: ops, cap: c, out: map[string]int64{}}
+				x.run(hist)
+			}
+		}
+		return
+	}
+	closedAll := true
+	var names []string
+	for _, o := range ops {
+		names = append(names, o.name)
+	}
+	for _, c := range caps {
+		for fo := range ops {
+			*idx++
+			if !r.Mine(*idx) {
+				continue
+			}
+			x := &c21seq{r: r, ops: ops, cap: c, base: []int{fo}, out: map[string]int64{}}
+			if _, ok := x.run(nil); !ok {
+				continue // first operation not enabled, or it blocks (judged by run)
+			}
+			states, trans, depth, closed := vk.BFS(len(ops), maxDepth, x.run, func() bool { return r.Expired("c21 seq") })
+			r.States(states)
+			r.Transitions(trans)
+			r.Traces(x.runs)
+			r.Nontrivial(fmt.Sprintf("seq cap=%d first=%s", c, ops[fo].name))
+			for k, v := range x.out {
+				r.OutcomeN("seq:"+k, v)
+			}
+			if !closed {
+				closedAll = false
+				r.Cap(fmt.Sprintf("seq-not-closed:cap=%d,first=%s", c, ops[fo].name))
+			}
+			r.Sample(map[string]interface{}{"family": "seq", "cap": c, "first_op": ops[fo].name, "states": states, "transitions": trans, "depth": depth, "closed": closed, "histories_run": x.runs})
+		}
+	}
+	r.Set("seq_family", fmt.Sprintf("capacities %v, ops %v, BFS to closure (depth cap %d), closure reached on this shard's roots=%v", caps, names, maxDepth+1, closedAll))
+}
+
 func TestVerifC21(t *testing.T) {
 	r := vk.Start(t, "C21")
 	defer r.Finish()
@@ -289,8 +635,9 @@ func TestVerifC21(t *testing.T) {
 		bound int
 		scns  []c21scn
 	}
-	full := c21scenarios([]int{0, 1, 3, 4, 5}, []int{1, 2, 4}, []string{"", "B", "C", "E", "CL", "BL"})
-	core := c21scenarios([]int{1, 3, 5}, []int{1, 4}, []string{"", "B", "C", "CL", "BL"})
+	full := c21scenarios([]int{0, 1, 3, 4, 5}, []int{1, 2, 4}, []string{"", "B", "C", "E", "CL", "BL", "K", "KL"})
+	// core: K/KL is the break entry point both closeStream implementations use (BL stays in full)
+	core := c21scenarios([]int{1, 3, 5}, []int{1, 4}, []string{"", "B", "C", "CL", "K", "KL"})
 	for _, a := range []int{1, 3, 5} {
 		for _, c := range []string{"", "E"} {
 			hs := c21scn{ws: []int{a, 1}, rbuf: 2, closer: c, hs: true}
@@ -302,13 +649,17 @@ func TestVerifC21(t *testing.T) {
 	if !r.Thorough() {
 		passes = []pass{{"full@1", 1, full}, {"core@2", 2, core}}
 	} else {
-		wide := c21scenarios([]int{0, 1, 3, 4, 5}, []int{0, 1, 2, 4, 5}, []string{"", "B", "C", "E", "CL", "BL", "BC", "CB", "L"})
-		for _, c := range []string{"", "B", "C", "CL", "BL"} {
+		wide := c21scenarios([]int{0, 1, 3, 4, 5}, []int{0, 1, 2, 4, 5}, []string{"", "B", "C", "E", "CL", "BL", "BC", "CB", "L", "K", "KL", "KC", "CK", "KK", "LK", "KE", "KN", "N"})
+		for _, c := range []string{"", "B", "C", "CL", "BL", "K", "KL"} {
 			wide = append(wide, c21scn{ws: []int{1, 3, 1}, rbuf: 2, closer: c}, c21scn{ws: []int{3, 3, 3}, rbuf: 4, closer: c})
 		}
 		passes = []pass{{"wide@1", 1, wide}, {"full@2", 2, full}, {"core@3", 3, core}}
 	}
 	idx := 0
+	c21seqFamily(r, &idx)
+	if r.Replaying() && strings.HasPrefix(r.ReplayCase(), "seq ") {
+		return
+	}
 	for _, ps := range passes {
 		completed := true
 		for _, scn := range ps.scns {
